@@ -571,6 +571,15 @@ class Abs:
             raise Undecided("membership in %r" % (b,))
         if isinstance(op, ast.NotIn):
             return not self.compare(ast.In(), a, b)
+        if type(a).__name__ in ("SymArr", "SymMat", "CMat") or type(b).__name__ in ("SymArr", "SymMat", "CMat") or hasattr(a, "compare") or hasattr(b, "compare"):
+            # symbolic arrays compare element-wise (numpy), giving a boolean array
+            flip = {"Lt": "Gt", "LtE": "GtE", "Gt": "Lt", "GtE": "LtE", "Eq": "Eq", "NotEq": "NotEq"}
+            nm = type(op).__name__
+            if nm in flip and not isinstance(a, (Tok, Obj)) and not isinstance(b, (Tok, Obj)) and a is not None and b is not None:
+                try:
+                    return a.compare(b, nm) if hasattr(a, "compare") else b.compare(a, flip[nm])
+                except ValueError as ex:
+                    raise Raised("ValueError(%s)" % ex)
         if getattr(a, "_abs_native", False) or getattr(b, "_abs_native", False):
             import operator as _op
             table = {ast.Eq: _op.eq, ast.NotEq: _op.ne, ast.Lt: _op.lt, ast.LtE: _op.le, ast.Gt: _op.gt, ast.GtE: _op.ge}
